@@ -166,6 +166,10 @@ class C03(L1Prop):
             nv = rng.randint(0, 3)
             ops = ["raw", "ensure 1"] + [f"av 1 {'nil' if i == 0 else 'latest:1'} b:{i},{j}" for i in range(nv)]
             ops += [f"race 1 {rng.choice([1, 2, 2, 3])} {rng.choice([60, 120, 200])}", "dumpall"]
+            if j % 2:
+                # ... and the same through ONE server object shared by all streams (the worker threads of one process), twice:
+                # whatever the first overlap leaves behind in the object is there for the second
+                ops += [f"race 1 {rng.choice([2, 3])} 60 shared", f"race 1 2 {rng.choice([60, 100])} shared", "dumpall"]
             out.append(Case(f"c03-race-{j}", ops, {"inst": True, "race": True, "group": "race", "sched": [], "cmode": "multi"}))
             k += 1
         # between two transactions of ONE request another instance acts (it creates the very client the request is
@@ -183,6 +187,17 @@ class C03(L1Prop):
             ops += [f"intrude {1 if j % 5 else 0} 5 b:9,{j}", "ileave " + " || ".join(group), "dump 5", "dump 1", "http GET gcv hyph=nil hyph=5 absent e",
                     "http POST av hyph=latest:5 hyph=5 history b:3", "walk 5", "walk 1"]
             out.append(Case(f"c03-intrude-{j}", ops, {"inst": True, "intrude": True, "http": True, "group": "intrude", "sched": [], "cmode": "shared"}, mode="http"))
+            k += 1
+        # right AFTER a request's transaction has committed — and before the request has been answered — another instance
+        # stores a snapshot for the version just added: the answer is the one of the committed transaction
+        for j in range(sizes(tier, 4, 16)):
+            d, v = [(14, 100), (14, 2), (1, 3), (14, 1)][j % 4]
+            ops = [f"cfg {d} {v}", "http POST av hyph=nil hyph=1 history b:1", "http POST av hyph=latest:1 hyph=1 history b:2"]
+            if j % 2:
+                ops += ["http POST as hyph=anc:1:1 hyph=1 snapshot b:8", "backdate 1 4000000"]
+            ops += [f"intrudeafter 0 1 snap stored b:9,{j}", f"http POST av hyph=latest:1 hyph=1 history b:3,{j}", "dump 1", "http GET snap - hyph=1 absent e",
+                    "http POST av hyph=latest:1 hyph=1 history b:4", "dump 1"]
+            out.append(Case(f"c03-intrudeafter-{j}", ops, {"inst": True, "intrude": True, "http": True, "group": "intrude", "sched": [], "cmode": "shared", "only": "sqlite"}, mode="http"))
             k += 1
         # uploads for ONE client and ONE parent whose body chunks arrive alternately at one worker: exactly
         # one is accepted, the others are told the new latest version, and what is stored under the new id
@@ -276,6 +291,8 @@ class C03(L1Prop):
                         fails.append(f"{kv['fast_errors']} requests were answered with an error well inside the lock-wait budget merely because other requests overlapped: {kv['first']}")
                     if kv["parents_twice"] != "0":
                         fails.append(f"{kv['parents_twice']} parents were accepted twice by overlapping AddVersion requests")
+                    if kv["slow_errors"] != "0" and int(kv.get("max_ok_ms", "99999")) < 1500 and "lockfor" not in " ".join(o2 for (o2, _, _) in trace):
+                        fails.append(f"{kv['slow_errors']} requests gave up waiting for the store (more than the lock-wait budget) although nothing else held it and no request that was served took longer than {kv.get('max_ok_ms')} ms: requests block each other")
                     if kv.get("torn_snapshots", "0") != "0":
                         fails.append(f"{kv['torn_snapshots']} GetSnapshot answers carried a version id and bytes that come from DIFFERENT uploads (every uploaded snapshot names its version in its bytes)")
                     if kv["orphans"] != "0" or kv["unacknowledged_on_chain"] != "0" or kv["walk"] != "ok":
